@@ -19,8 +19,11 @@ macro "pres_core" : tactic => `(tactic| first
 theorem Pres.resetPrefixedOptions (a b : Str) : Pres (resetPrefixedOptions a b) := by
   unfold MesonModel.Options.resetPrefixedOptions; repeat pres_core
 
+theorem Pres.setOptionTail (s : Store) (k : Key) (f : Bool) (id : Nat) (v : Val) : Pres (setOptionTail s k f id v) := by
+  unfold MesonModel.Options.setOptionTail; repeat (first | exact Pres.resetPrefixedOptions _ _ | pres_core)
+
 theorem Pres.setOptionCore (k : Key) (v : Val) (f : Bool) : Pres (setOptionCore k v f) := by
-  unfold MesonModel.Options.setOptionCore; repeat (first | exact Pres.resetPrefixedOptions _ _ | pres_core)
+  unfold MesonModel.Options.setOptionCore; repeat (first | exact Pres.setOptionTail _ _ _ _ _ | pres_core)
 
 theorem Pres.setOption (k : Key) (v : Val) (f : Bool) : Pres (setOption k v f) := by
   unfold MesonModel.Options.setOption; repeat (first | exact Pres.setOptionCore _ _ _ | pres_core)
@@ -89,9 +92,12 @@ theorem Pres.initTop (a b c : Dict) : Pres (initTop a b c) := by
   unfold MesonModel.Options.initTop
   repeat (first | exact Pres.firstHandlePrefix _ _ _ | exact Pres.setUserOption _ _ _ | pres_core)
 
-theorem Pres.applyMerged (sub : Str) (d : Dict) : Pres (applyMerged sub d) := by
-  unfold MesonModel.Options.applyMerged
+theorem Pres.applyMergedWith (ex : Dict) (sub : Str) (d : Dict) : Pres (applyMergedWith ex sub d) := by
+  unfold MesonModel.Options.applyMergedWith
   repeat (first | exact Pres.setUserOption _ _ _ | pres_core)
+
+theorem Pres.applyMerged (sub : Str) (d : Dict) : Pres (applyMerged sub d) :=
+  ⟨fun s h => (Pres.applyMergedWith s.augments sub (buildtypeFirst d)).run s h⟩
 
 theorem Pres.initSub (sub : Str) (a b c d : Dict) : Pres (initSub sub a b c d) := by
   unfold MesonModel.Options.initSub
